@@ -16,9 +16,9 @@ FIELDS = [
     ("::std::vec::Vec<T>", "<T: ::core::clone::Clone>", "where T: ::core::default::Default", "<u16>", "vec![1u16]", "vec![]"),
     ("T", "<T>", "where T: ::core::marker::Copy", "<i64>", "-3i64", "4i64"),
     ("(T, U)", "<T, U: ::core::fmt::Debug>", "", "<u8, bool>", "(1u8, true)", "(2u8, false)"),
-    ("[u8; N]", "<const N: usize>", "", "<3>", "[1u8, 2, 3]", "[0u8; 3]"),
+    ("[u8; N]", "<const N: ::core::primitive::usize>", "", "<3>", "[1u8, 2, 3]", "[0u8; 3]"),
     ("&'a [T]", "<'a, T>", "", "<'static, u8>", "&[1u8, 2][..]", "&[9u8][..]"),
-    ("::std::option::Option<::std::boxed::Box<T>>", "<T: ?Sized>", "", "<str>", "None", "Some(::std::boxed::Box::from(\"q\"))"),
+    ("::std::option::Option<::std::boxed::Box<T>>", "<T: ?::core::marker::Sized>", "", "<str>", "None", "Some(::std::boxed::Box::from(\"q\"))"),
 ]
 
 
@@ -137,7 +137,7 @@ def run(rep, tier, rng):
     rep.canary = judge_refusal(o2, 1, ["Deref"], meta[o2["id"]][3]) is not None
     rep.exhaustive = True
     rep.rule = ("complete over the shape table: 11 single-field shapes (tuple/named, generics with bounds and where-clauses, const "
-                "and lifetime parameters, ?Sized, unsized-capable field types) x entry x {Deref, Deref+DerefMut}, compiled with "
+                "and lifetime parameters, ?::core::marker::Sized, unsized-capable field types) x entry x {Deref, Deref+DerefMut}, compiled with "
                 "the real proc-macro and observed at run time (address identity, TypeId of Target, write-through); and arities "
                 "0-4 x struct kind x trait lists x entry for the refusal, judged on the in-process expansion.")
 
